@@ -10,6 +10,8 @@ use vkit::*;
 
 const K: f64 = 4096.0;
 
+mod regime;
+
 fn pow2<S: Dom>(e: i64) -> S {
     if e >= 0 {
         S::i(1i64 << e)
@@ -210,6 +212,12 @@ pub fn property() -> Property {
     let b = "local_to_basis maps 0, e_x, e_y, e_z to origin, origin+i, +j, +k for arbitrary i,j,k; basis_to_local inverts it for orthonormal (proper and improper) bases";
     tape!("basis-rat", b, 96, 30_000, 800_000, basis::<Rat>);
     tape!("basis-f64", b, 160, 20_000, 500_000, basis::<f64>);
+    let c = "REGIMES. every look-at / model-look-at variant (lh, rh, deprecated aliases, both layouts, Vec3 / Vec4 / array / tuple operands) with the eye-target distance, |up| and the eye position scaled exactly by independent powers of two over the whole range in which one squared length stays finite and normal (f32: distance 2^-58..2^62, |up| 2^-54..2^60, |eye| up to 2^12 * distance and down to 2^-100; f64: 2^-500..2^504, 2^-495..2^502, 2^40 * distance, 2^-900); view directions along / next to the coordinate axes, up = a coordinate axis; judged in f64 against the frame the property determines, rotation entries to 128 eps / sin(up, forward), translations relative to |eye|, images of target relative to |eye| + |target| and (rotation part) to the distance, up relative to |up|";
+    tape!("look-at-regime-f32", c, 160, 30_000, 2_000_000, regime::look_at_regime::<f32>);
+    tape!("look-at-regime-f64", c, 160, 30_000, 2_000_000, regime::look_at_regime::<f64>);
+    let d = "REGIMES. local_to_basis with arbitrary vectors and origins at every finite magnitude (independent powers of two, MAX, MIN_POSITIVE, subnormals): columns are exactly i, j, k, origin; basis_to_local / local_to_basis with orthonormal bases (signed permutations of the axes, tiny rotations of them, rational rotations; proper and improper) and origins scaled by 2^-100..2^100 (f32) / 2^-900..2^1000 (f64): inverse of each other blockwise, origin -> 0 relative to |origin|, basis vectors -> unit axes";
+    tape!("basis-regime-f32", d, 200, 20_000, 1_000_000, regime::basis_regime::<f32>);
+    tape!("basis-regime-f64", d, 200, 20_000, 1_000_000, regime::basis_regime::<f64>);
     Property {
         id: "C09",
         rule: "views built from a rational orthonormal frame: target = eye + L*forward with L spanning 2^-12..2^12, up = scale*(a*u + b*forward) with a > 0, b usually != 0 and scale spanning 2^-36..2^20 (so every normalisation is rational), plus random float views incl. tiny/huge up vectors; bases: arbitrary vectors and rational rotations (1/3 improper); non-trivial = eye, direction and up have three non-zero components and up is not perpendicular; distinct = distinct consumed tape prefix",
